@@ -236,7 +236,7 @@ def replay_frame(arg):
 
 
 def run(ctx: Ctx):
-    consts = dict(MaxLen="2" if ctx.quick else "3", Ns="1..3",
+    consts = dict(MaxLen="2" if ctx.quick else "3", Ns="1..4",
                   TaskSet='{"detection","tracking","detection2d","fp_validation","prediction","sensing","foo"}')
     res = T.run_model("MC_Config", "MCC_" + ctx.pid, consts, invariants=INV, model_values=(), tlc_kwargs=dict(dump=True, allow_violation=False, timeout=3000))
     ctx.add_tlc(res, "MC_Config %s" % consts, must_take=["Eval"])
